@@ -62,6 +62,7 @@ THEOREMS = [
     "IrVerif.Names.C15_gen_untouched",
     "IrVerif.Names.C15_gen_default_raises_only_on_refusal",
     "IrVerif.Names.C15_illscoped_nodes",
+    "IrVerif.Names.C15_illscoped_values",
 ]
 ASSUMPTIONS = [
     "Python set/dict membership, dict insertion order and f-string decimal printing of int are modelled by list "
@@ -109,8 +110,24 @@ class _Timeout(BaseException):
     code under test nor an `except Exception` of the harness may swallow it)"""
 
 
-_ITEM_CPU_S = float(__import__("os").environ.get("C15_ITEM_CPU_S", "20"))    # one item takes milliseconds
-_ITEM_WALL_S = float(__import__("os").environ.get("C15_ITEM_WALL_S", "600"))  # a blocked (not spinning) call
+_ITEM_CPU_S = float(__import__("os").environ.get("C15_ITEM_CPU_S", "5"))     # one item takes milliseconds
+_ITEM_WALL_S = float(__import__("os").environ.get("C15_ITEM_WALL_S", "120"))  # a blocked (not spinning) call
+# circuit breaker: after this many items of one stream ran into the guard the rest of that stream is not executed
+# (the check has failed already; thousands of looping items x the guard time would amount to a hanging check)
+_NONTERM_MAX = 3
+_nonterm: dict = {}
+
+
+def _tripped(ctx, stream: str) -> bool:
+    if _nonterm.get(stream, 0) >= _NONTERM_MAX:
+        ctx.count(f"skipped_after_nontermination={stream}")
+        return True
+    return False
+
+
+def _timed_out(ctx, stream: str, sig: str, what: str, case) -> None:
+    _nonterm[stream] = _nonterm.get(stream, 0) + 1
+    ctx.fail(sig, what, case)
 
 
 @__import__("contextlib").contextmanager
@@ -628,13 +645,15 @@ def _run_authority(ctx: Ctx, ir) -> None:
     for i in range(ctx.pick(1500, 20000)):
         size = ctx.rng.choice([2, 4, 8, 16]) if i % 10 else 40
         script = []
+        if _tripped(ctx, "authority"):
+            break
         try:
             with _guard():
                 ex, script = _one_history(ctx, ir, size, script)
                 ex2 = _clone_case(ctx, ir, ex, script) if i % 7 == 0 else None
         except _Timeout as e:
-            ctx.fail("nontermination:authority", f"a graph / name-authority call did not return ({e})",
-                     {"part": "authority", "script": script})
+            _timed_out(ctx, "authority", "nontermination:authority", f"a graph / name-authority call did not return ({e})",
+                       {"part": "authority", "script": script})
             continue
         except Exception as e:  # noqa: BLE001 - the harness' stubs met an implementation that behaves differently
             ctx.disagree(f"authority: the implementation raised {type(e).__name__} where the harness expects none",
@@ -935,6 +954,35 @@ def _scope_lists(spec, dicts_now):
     return ok[0], lists, nodelists
 
 
+def _rec_lists(spec, dicts_now):
+    """Independent restatement of `recScopes` (no scoping rule): for every graph occurrence the values recorded in the
+    enclosing scopes before it was entered followed by the values FIRST met in the graph itself (a value met before -
+    wherever - is skipped).  One `seen` set per top-level graph / function."""
+    lists = []
+
+    def graph(g, vis, seen):
+        vis = list(vis)
+
+        def meet(v):
+            if v not in seen:
+                seen.add(v)
+                vis.append(v)
+
+        for v in g["ins"] + g["outs"] + [v for _, v in dicts_now[g["g"]]] + [v for n in g["nodes"] for v in n["outs"]]:
+            meet(v)
+        for n in g["nodes"]:
+            for v in n["ins"] + n["outs"]:
+                if v is not None:
+                    meet(v)
+            for sub in _subgraphs(n):
+                graph(sub, vis, seen)
+        lists.append(vis)
+
+    for t in spec["tops"]:
+        graph(t, [], set())
+    return lists
+
+
 def _ownership(spec, dicts_now):
     """Ownership view, independent of any traversal order: every graph owns its inputs, outputs, initializers and
     the outputs of its nodes.  Returns (well_owned, [(owned values of G and of all its ancestors)]) where
@@ -1093,11 +1141,13 @@ def _run_one_fix(ir, spec):
 
 def _check_fix_case(ctx, ir, spec, out, origin):
     case = {"part": "namefix", "spec": spec}
+    if _tripped(ctx, "namefix"):
+        return
     try:
         with _guard():
             before, after, sb, sa, raised, modified, second = _run_one_fix(ir, spec)
     except _Timeout as e:
-        ctx.fail("nontermination:NameFixPass", f"NameFixPass did not return ({e})", case)
+        _timed_out(ctx, "namefix", "nontermination:NameFixPass", f"NameFixPass did not return ({e})", case)
         return
     except Exception as e:  # the spec cannot be built as real IR (rejected by constructors)
         ctx.count(f"namefix_unbuildable={type(e).__name__}")
@@ -1120,6 +1170,21 @@ def _check_fix_case(ctx, ir, spec, out, origin):
              funcs_fixed=min(sum(need[1:]), 3), later_func_fixed=bool(len(need) > 2 and any(need[:-1]) and need[-1]))
     for sig, what in fails:
         ctx.fail(sig, what, case)
+    # C15_illscoped_values: no scoping rule.  The model's recorded-scope lists against the Python restatement; the
+    # conclusion on the model's output (driver) and on the real objects (oracle)
+    rec = _rec_lists(spec, spec["dicts"])
+    if sorted(sorted(set(L)) for L in rec) != sorted(sorted(set(L)) for L in (out.get("recLists") or [])):
+        ctx.disagree("recScopes (Lean) != Python restatement", case, out.get("recLists"), rec)
+    if out.get("initsOk") and out.get("closed") and out.get("nodup") and out.get("disjoint"):
+        ctx.count("namefix_illscoped_values_hyp=" + str(not out.get("scoped")))
+        if not out.get("recPost"):
+            ctx.disagree("C15_illscoped_values contradicted by the driver", case, out, None)
+        if raised is None:
+            for L in rec:
+                names = [after["vnames"][v] for v in L]
+                if len(set(names)) != len(names) and not any(s0 == "NameFixPass:recorded-duplicate-value-name" for s0, _ in fails):
+                    ctx.fail("NameFixPass:recorded-duplicate-value-name",
+                             f"values recorded in one scope (no scoping rule needed) carry {names}", case)
     # C15_illscoped_nodes: no scoping rule - hypotheses and conclusion evaluated by the driver
     if out.get("initsOk") and out.get("closed") and out.get("nodup") and out.get("nodeDisjoint"):
         ctx.count("namefix_illscoped_nodes_hyp=" + str(not (out.get("scoped") and out.get("disjoint"))))
@@ -1243,6 +1308,8 @@ def _custom_generator_case(ctx, ir, spec):
     before, sb = b.state(), b.structure()
     raised = None
     case = {"part": "namefix-custom-generator", "spec": spec}
+    if _tripped(ctx, "namefix-custom"):
+        return
     try:
         with _guard():
             try:
@@ -1250,7 +1317,7 @@ def _custom_generator_case(ctx, ir, spec):
             except Exception as e:  # noqa: BLE001
                 raised = type(e).__name__
     except _Timeout as e:
-        ctx.fail("nontermination:NameFixPass(custom generator)", f"NameFixPass did not return ({e})", case)
+        _timed_out(ctx, "namefix-custom", "nontermination:NameFixPass(custom generator)", f"NameFixPass did not return ({e})", case)
         return
     after, sa = b.state(), b.structure()
     after["const_ok"] = b.const_names_ok()
@@ -1390,12 +1457,14 @@ def _run_namefix_x(ctx: Ctx, ir, specs) -> None:
 def _exec_x_runs(ctx: Ctx, ir, runs) -> None:
     results, reqs = [], []
     for xs, kind, origin, mode in runs:
+        if _tripped(ctx, "namefix-x"):
+            continue
         try:
             with _guard():
                 res = _run_one_x(ir, xs, kind)
         except _Timeout as e:
-            ctx.fail(f"nontermination:NameFixPass(gen={kind})", f"NameFixPass did not return ({e})",
-                     {"part": "namefix-x", "spec": xs, "gen": kind})
+            _timed_out(ctx, "namefix-x", f"nontermination:NameFixPass(gen={kind})", f"NameFixPass did not return ({e})",
+                       {"part": "namefix-x", "spec": xs, "gen": kind})
             continue
         except Exception as e:  # the spec cannot be built as real IR
             ctx.count(f"namefix_x_unbuildable={type(e).__name__}")
@@ -1681,6 +1750,8 @@ def _check_rename_case(ctx, ir, c, origin, out):
         return
     before = _rename_state(values, graphs, tlist)
     raised = None
+    if _tripped(ctx, "rename"):
+        return
     try:
         with _guard():
             try:
@@ -1691,7 +1762,7 @@ def _check_rename_case(ctx, ir, c, origin, out):
             except Exception as e:  # noqa: BLE001
                 raised = type(e).__name__
     except _Timeout as e:
-        ctx.fail("nontermination:rename_values", f"rename_values did not return ({e})", case)
+        _timed_out(ctx, "rename", "nontermination:rename_values", f"rename_values did not return ({e})", case)
         return
     after = _rename_state(values, graphs, tlist)
     fails = []
@@ -1776,6 +1847,7 @@ FLOORS = {
     "desync_frozen_target=True": 250, "desync_tensor=True": 600,
     # C15_gen_post: hypotheses hold, custom generator
     "x_gen_post_hyp=True": 400, "x_gen_post_custom": 200, "namefix_illscoped_nodes_hyp=True": 100,
+    "namefix_illscoped_values_hyp=True": 40,
 }
 
 
@@ -1792,6 +1864,9 @@ def _check_floors(ctx):
         raise Infra(f"{ctx.dist.get('namefix_spec_not_realised', 0) + ctx.dist.get('namefix_x_spec_not_realised', 0)} "
                     "generated models could not be realised as specified")
     thin = {k: ctx.dist.get(k, 0) for k, f in FLOORS.items() if ctx.dist.get(k, 0) < f}
+    if any(n >= _NONTERM_MAX for n in _nonterm.values()):
+        ctx.extra["streams_cut_after_nontermination"] = dict(_nonterm)  # failures are reported; floors are moot
+        return
     if thin:
         raise Infra(f"coverage floor not reached: {thin} (floors {({k: FLOORS[k] for k in thin})})")
 
